@@ -90,6 +90,12 @@ def run_refA(history, budget=60000):
                 g, args = qs.pop(st[1])
                 g.close()
                 obs.append(None)
+            elif k == 'api':
+                # yp.assertz(t) / yp.asserta(t) / yp.retractall(t) called as plain statements: they act at once
+                g = r.call(('c', st[1], (st[2],)), s_outer())
+                for s in g:
+                    pass
+                obs.append(None)
             elif k == 'run':
                 args = list(st[2])
                 out = []
@@ -182,6 +188,11 @@ def run_refB(history, budget=400000):
             elif k == 'close':
                 g, m, args = qs.pop(st[1])
                 g.close()
+                obs.append(None)
+            elif k == 'api':
+                m = init()
+                for _ in m.run(('c', st[1], (st[2],))):
+                    pass
                 obs.append(None)
             elif k == 'run':
                 m = init()
@@ -348,6 +359,16 @@ class RealHistory:
                 o = ('load_did_not_raise',)
             except Exception:
                 o = None
+        elif k == 'api':
+            # the host calls the method and throws the returned object away
+            t = build_real(yp, st[2], self.vmap, self.atomf)
+            meth = getattr(yp, st[1])
+
+            def f():
+                meth(t)
+                return None
+            o = self.guarded(f)
+            self.api_statements = getattr(self, 'api_statements', 0) + 1
         elif k == 'mkvars':
             # the host program creates its query variables early and uses them much later
             for name in st[1]:
@@ -484,6 +505,8 @@ def run_real(real, history, budget=3000000, unstable=None, atom_mode='fresh'):
         h.finish()
         for kd, nk in getattr(h, 'callable_kinds', {}).items():
             STATS['registered_' + kd] = STATS.get('registered_' + kd, 0) + nk
+        if getattr(h, 'api_statements', 0):
+            STATS['api_statements'] = STATS.get('api_statements', 0) + h.api_statements
         if getattr(h, 'reused_objects', 0):
             STATS['asserted_term_objects_reused'] = STATS.get('asserted_term_objects_reused', 0) + h.reused_objects
         if getattr(h, 'loads_from_file', 0):
@@ -530,8 +553,29 @@ def uniq_history(history):
             st = (k, st[1], st[2], [uniq_anon(a, cnt) for a in st[3]])
         elif k == 'run':
             st = (k, st[1], [uniq_anon(a, cnt) for a in st[2]], st[3])
+        elif k == 'api':
+            st = (k, st[1], uniq_anon(st[2], cnt))
         out.append(st)
     return out
+
+
+def _max_term_size(x):
+    """number of nodes of the largest tuple term anywhere in a history"""
+    best = 0
+    stack = [x]
+    while stack:
+        o = stack.pop()
+        if isinstance(o, tuple) and o and o[0] in ('c', 'a', 'v', 'i', 's', 'py') and not (len(o) > 1 and isinstance(o[1], tuple) and o[0] != 'c'):
+            if o[0] == 'c' and len(o) == 3 and isinstance(o[2], tuple):
+                from .terms import term_size
+                try:
+                    best = max(best, term_size(o))
+                    continue
+                except Exception:
+                    pass
+        if isinstance(o, (list, tuple)):
+            stack.extend(o)
+    return best
 
 
 def compare_history(real, history, budgetA=60000, atom_mode='fresh'):
@@ -546,6 +590,11 @@ def compare_history(real, history, budgetA=60000, atom_mode='fresh'):
     if na != nb:
         return {'status': 'discard', 'reason': 'oracle_disagreement', 'A': na, 'B': nb}
     budget = 20000 * ra.steps + 2000000
+    # the engine copies and dereferences terms at every use (work quadratic in the size of a term full of
+    # variables): the bound separating "slow" from "does not terminate" grows with the largest term of the history
+    big = _max_term_size(history)
+    if big > 100:
+        budget += 2000 * big * big
     unstable = []
     orr = normalise(run_real(real, history, budget, unstable, atom_mode))
     if unstable:
